@@ -86,7 +86,7 @@ def invariance_case(case):
     name = case["method"]
     dtype = lc.DT[case["dtype"]]
     fam = lc.family(name)
-    tol = 1e-7
+    tol = case.get("tol", 1e-7)
     t0, tf, dt0 = case["t0"], case["tf"], case["dt0"]
     try:
         prob = case.get("prob", "pendulum")
@@ -171,6 +171,12 @@ def run(ctx):
                     for prob in ("oscillator", "damped"):
                         for c in (-7.0, 3.0, 100.0):
                             cases.append(dict(section="inv", kind="shift", method=m, dtype=dn, t0=t0, tf=t0 + 4.0 * (1 if tf > t0 else -1), dt0=0.05, c=c, prob=prob))
+    # Richardson-extrapolated wrappers are adaptive methods in the shift / reflection relation too (their step control has its own code per base family)
+    for m in ("RICH:EulerSolver:3", "RICH:SymplecticEulerSolver:2", "RICH:ABAs5o6HSolver:2", "RICH:ImplicitMidpoint:2") + (() if ctx.quick else ("RICH:RK4Solver:3", "RICH:SymplecticEulerSolver:4", "RICH:BABs9o7HSolver:2")):
+        for (t0, tf) in ispans[:3] if ctx.quick else ispans:
+            for c in (-4.0, 4.0):
+                cases.append(dict(section="inv", kind="shift", method=m, dtype="float64", t0=t0, tf=tf, dt0=0.5, c=c, tol=1e-5))
+            cases.append(dict(section="inv", kind="reflect", method=m, dtype="float64", t0=t0, tf=tf, dt0=0.5, tol=1e-5))
     grid.pmap(run_case, cases, ctx, horizon=600)
     ctx.note("cases", total=len(cases))
 
